@@ -20,6 +20,7 @@
 From GL Require Import Conc.Cache Conc.CacheLemmas Conc.CacheInv Conc.CacheProofs Conc.CacheTheorems.
 From GL Require Import Conc.CacheLts Conc.CacheLtsProofs Conc.CacheLtsInv Conc.CacheLtsClose.
 From GL Require Import Conc.CacheTable Conc.CacheTableLemmas Conc.CacheTableInv Conc.CacheTableProofs.
+From GL Require Import Conc.CacheLocks Conc.CacheLocksProofs.
 From GL Require Import Gen.InstC17 Gen.InstC17Ok.
 From Coq Require Import Lia Permutation.
 
@@ -466,3 +467,93 @@ Example C17_murmur32_values :
   cache_hash 0 0 = 2515361066 /\ cache_hash 1 2 = 2553770548 /\
   cache_hash 18446744073709551615 1311768467463790320 = 518841862.
 Proof. vm_compute. repeat split; reflexivity. Qed.
+
+(* ================================================================ Part D: Close and the locks
+
+   Conc/CacheLocks.v puts sync.RWMutex's blocking rules (a writer that has called Lock blocks every later
+   RLock; Lock waits for the readers inside) on top of the interleaved semantics of Part B, for the lock
+   protocol of the code as found (one lock, re-entered by Handle.Release -> unRefExternal inside
+   Get/Delete/Evict/EvictNS/EvictAll) and for the repaired one (repo commit "fix: cache: Close must not
+   deadlock with an operation whose cacher step releases a handle": the operations hold opMu,
+   unRefExternal takes mu, Close takes opMu and then mu). *)
+
+(* D1. the code as found deadlocks (known finding cache-close-rlock-reentry / cache-close-deadlock-recursive-rlock,
+       reproduced on the implementation: 3 deadlocks in 46-131 trials): after the 11-action schedule
+       [deadlock_trace] goroutine 1 is inside Get holding the read lock with the release of an evicted lru
+       handle next, goroutine 2 has called Close; the nested RLock and Close's Lock are both disabled and
+       stay disabled after EVERY continuation by any goroutines *)
+Theorem C17_close_deadlock_as_found :
+  exists K, krun false (kinit true 1) deadlock_trace = Some K /\ kreach false K /\ dead12 K /\
+    forall tr K', krun false K tr = Some K' ->
+      dead12 K' /\ kstep false K' (KAct (AStep 1)) = None /\
+      forall f, kstep false K' (KAct (AStart 2 (OClose f))) = None.
+Proof. exact close_deadlock_old. Qed.
+Print Assumptions C17_close_deadlock_as_found.
+
+(* D2. the repaired protocol has no such wait: in EVERY reachable state (any number of goroutines, any
+       interleaving, force-close included) a Close that holds opMu finds nobody inside an operation and can
+       run its flag section at once; otherwise every goroutine inside an operation or a release can take its
+       next step (the nested Handle.Release included); an announced Close gets opMu as soon as nobody is
+       inside an operation.  Every wait is for a goroutine that can move: no cycle. *)
+Theorem C17_close_repaired_no_wait_cycle : forall K, kreach true K ->
+  (forall w, k_w K = Some (w, true) ->
+     rlocked_other w (l_thr (k_L K)) = false /\ forall f, kstep true K (KAct (AStart w (OClose f))) <> None) /\
+  ((forall w, k_w K <> Some (w, true)) ->
+     forall t, t_code (get_thr t (l_thr (k_L K))) <> [] -> kstep true K (KAct (AStep t)) <> None) /\
+  (forall w, k_w K = Some (w, false) -> rlocked_other w (l_thr (k_L K)) = false -> kstep true K (KAcq w) <> None).
+Proof. exact repaired_no_wait_cycle. Qed.
+Print Assumptions C17_close_repaired_no_wait_cycle.
+
+(* D3. the lock layer only restricts the interleaved semantics, for either protocol: its reachable states
+       are states of Part B, so the invariants proved there hold for the repaired protocol — restated for
+       its reachable states (all operations and Close(false)) *)
+Theorem C17_close_repaired_refines_lts : forall two K, kreach_c two K -> lreach_c (k_L K).
+Proof. exact kreach_c_lreach_c. Qed.
+Print Assumptions C17_close_repaired_refines_lts.
+
+Theorem C17_close_repaired_one_live_value_partial : forall K, kreach_c true K ->
+  forall h1 h2 n1 n2, handle_node (l_g (k_L K)) h1 = Some n1 -> handle_node (l_g (k_L K)) h2 = Some n2 -> keyof n1 = keyof n2 ->
+    n1 = n2 /\
+    exists v, handle_value (l_g (k_L K)) h1 = Some v /\ handle_value (l_g (k_L K)) h2 = Some v /\
+              ccn (n_id n1) (s_log (l_g (k_L K))) = 1%nat /\ ccv v (s_log (l_g (k_L K))) = 1%nat /\ cf v (s_log (l_g (k_L K))) = 0%nat.
+Proof. exact one_live_value_k. Qed.
+Print Assumptions C17_close_repaired_one_live_value_partial.
+
+Theorem C17_close_repaired_finalise_once_after_release_partial : forall K, kreach_c true K ->
+  (forall v, (cf v (s_log (l_g (k_L K))) <= 1)%nat) /\
+  (forall x v sz, In (EvConstruct x v sz) (s_log (l_g (k_L K))) -> (1 <= cf v (s_log (l_g (k_L K))))%nat ->
+     handles_on x (s_handles (l_g (k_L K))) = 0%nat) /\
+  (forall x v sz, In (EvConstruct x v sz) (s_log (l_g (k_L K))) ->
+     cf v (s_log (l_g (k_L K))) = 1%nat \/
+     (cf v (s_log (l_g (k_L K))) = 0%nat /\ exists n, In n (s_nodes (l_g (k_L K))) /\ n_id n = x /\ n_val n = Some v)).
+Proof. exact finalise_once_not_early_k. Qed.
+Print Assumptions C17_close_repaired_finalise_once_after_release_partial.
+
+Theorem C17_close_repaired_delfunc_once_not_early_partial : forall K, kreach_c true K ->
+  (forall d, (cdr d (s_log (l_g (k_L K))) <= 1)%nat) /\
+  (forall d x, In (EvDelReg d x) (s_log (l_g (k_L K))) -> (1 <= cdr d (s_log (l_g (k_L K))))%nat ->
+     handles_on x (s_handles (l_g (k_L K))) = 0%nat) /\
+  (forall d, d < s_next_did (l_g (k_L K)) ->
+     cdr d (s_log (l_g (k_L K))) = 1%nat \/
+     (cdr d (s_log (l_g (k_L K))) = 0%nat /\ exists n, In n (s_nodes (l_g (k_L K))) /\ In d (n_dels n))).
+Proof. exact delfunc_once_not_early_k. Qed.
+Print Assumptions C17_close_repaired_delfunc_once_not_early_partial.
+
+Theorem C17_close_repaired_capacity_census_partial : forall K, kreach_c true K ->
+  s_used (l_g (k_L K)) = used_sum (s_nodes (l_g (k_L K))) /\ (s_used (l_g (k_L K)) <= Z.of_N (s_cap (l_g (k_L K))))%Z /\
+  s_panic (l_g (k_L K)) = false /\
+  forall n, In n (s_nodes (l_g (k_L K))) ->
+    n_ref n = (Z.of_nat (handles_on (n_id n) (s_handles (l_g (k_L K)))) + (if resident n then 1 else 0)
+               + pend_ref (n_id n) (l_thr (k_L K)))%Z /\ (0 <= n_ref n)%Z.
+Proof. exact capacity_census_k. Qed.
+Print Assumptions C17_close_repaired_capacity_census_partial.
+
+(* non-vacuity of D2/D3: the deadlock schedule continued under the repaired protocol — goroutine 1's nested
+   release runs although Close is announced, its Get returns, Close acquires opMu then mu, closes and evicts;
+   the last handle is released; everybody idle, both values finalised exactly once *)
+Theorem C17_close_deadlock_repaired :
+  exists K, krun true (kinit true 1) repaired_trace = Some K /\
+    k_w K = None /\ all_idle (l_thr (k_L K)) /\ s_closed (l_g (k_L K)) = true /\ s_handles (l_g (k_L K)) = [] /\
+    cf 0 (s_log (l_g (k_L K))) = 1%nat /\ cf 1 (s_log (l_g (k_L K))) = 1%nat.
+Proof. exact close_deadlock_repaired. Qed.
+Print Assumptions C17_close_deadlock_repaired.
